@@ -9,10 +9,7 @@ a well-formed document of the grammar with exactly these tokens – provided the
 
  * `rep` (on the result tree): no made-up arguments (as `noBare`); a command with a fixed
    signature has its arguments as declared (at most `optional` bracket groups, then exactly
-   `required` brace groups – `argShape`); in the body of a math-mode environment no
-   argument-less command is directly followed by a brace group (`peekFreeL`: the look-ahead of
-   `read_env` would read that group in math mode, and nothing in the tree tells that this is
-   harmless);
+   `required` brace groups – `argShape`). Nothing in `rep` depends on the mode (`rep_mode`);
  * `SHyp` (on the tokens, closed under suffixes): no backslash at the very end; the token after a
    backslash is its own `strip()`; the argument read right after `\begin` (open signature) /
    `\end` (signature `(1, 0)`) is a brace group around one text token (`envNames`, stated on the
@@ -37,18 +34,6 @@ def argShape (sg : Int × Int) (args : List Expr) : Bool :=
     (args.dropWhile isBracketG).all isBraceG &&
     decide (((args.dropWhile isBracketG).length : Int) = sg.1)
 
-def isNoArgCmd : Expr → Bool
-  | .cmd _ [] [] _ => true
-  | _ => false
-def startsWithGroup : List Expr → Bool
-  | .group .brace _ _ :: _ => true
-  | .text _ _ :: .group .brace _ _ :: _ => true
-  | _ => false
-/-- no argument-less command directly (or after one text leaf) in front of a brace group -/
-def peekFreeL : List Expr → Bool
-  | [] => true
-  | e :: r => !(isNoArgCmd e && startsWithGroup r) && peekFreeL r
-
 mutual
 /-- The tree is representable in the grammar (read in mode `m`). -/
 def rep (m : Mode) : Expr → Bool
@@ -56,7 +41,7 @@ def rep (m : Mode) : Expr → Bool
   | .cmd name args body _ =>
       argShape (cmdSig (-1) (-1) name) args && repA (cmdMode name m) args && repL .nonMath body
   | .nenv name args body _ =>
-      repA m args && (envMode name m != .math || peekFreeL body) && repL (envMode name m) body
+      repA m args && repL (envMode name m) body
   | .math _ body _ => repL .math body
   | .group _ body _ => repL .nonMath body
 def repL (m : Mode) : List Expr → Bool
@@ -74,6 +59,34 @@ theorem repL_cons {m : Mode} {e : Expr} {es : List Expr} :
     repL m (e :: es) = true ↔ rep m e = true ∧ repL m es = true := by
   simp [repL]
 @[simp] theorem repA_nil (m : Mode) : repA m [] = true := by simp [repA]
+
+mutual
+/-- nothing in `rep` depends on the mode -/
+theorem rep_mode (m m' : Mode) : ∀ e : Expr, rep m e = rep m' e
+  | .text _ _ => by simp [rep]
+  | .cmd name args body _ => by
+      simp only [rep]
+      rw [repA_mode (cmdMode name m) (cmdMode name m') args]
+  | .nenv name args body _ => by
+      simp only [rep]
+      rw [repA_mode m m' args, repL_mode (envMode name m) (envMode name m') body]
+  | .math _ body _ => by simp [rep]
+  | .group _ body _ => by simp [rep]
+theorem repL_mode (m m' : Mode) : ∀ es : List Expr, repL m es = repL m' es
+  | [] => by simp [repL]
+  | e :: es => by
+      simp only [repL]
+      rw [rep_mode m m' e, repL_mode m m' es]
+theorem repA_mode (m m' : Mode) : ∀ es : List Expr, repA m es = repA m' es
+  | [] => by simp [repA]
+  | .group _ b p :: as => by
+      simp only [repA]
+      rw [repL_mode m m' b, repA_mode m m' as]
+  | .text _ _ :: _ => by simp [repA]
+  | .cmd _ _ _ _ :: _ => by simp [repA]
+  | .nenv _ _ _ _ :: _ => by simp [repA]
+  | .math _ _ _ :: _ => by simp [repA]
+end
 
 theorem repA_append (m : Mode) (a b : List Expr) : repA m (a ++ b) = (repA m a && repA m b) := by
   induction a with
@@ -133,13 +146,12 @@ def SoundAt (skip0 : List Str) (f : Nat) : Prop :=
       ∃ b, toksS b ++ rest = ts ∧ trees b = es ∧ WFs [] .math (.mth k) (win rest) b = true) ∧
   (∀ name args pos skip mode ts e rest, readEnv f name args pos skip false mode ts = .ok (e, rest) →
       SHyp skip0 ts → SkipSub skip skip0 → mode ≠ .special →
-      (∀ body, e = .nenv name args body pos → repL mode body = true ∧ (mode = .math → peekFreeL body = true)) →
+      (∀ body, e = .nenv name args body pos → repL mode body = true) →
       ∃ (b : List Elem) (esc2 en : Tok) (nm2 : NameArg), toksS b ++ esc2 :: en :: (nm2.toks ++ rest) = ts ∧ e = .nenv name args (trees b) pos ∧
         WFs skip mode .env [esc2, en] b = true ∧ esc2.cat = .Escape ∧ en.text = sEnd ∧ nm2.ok = true ∧
         nm2.nt.text = name) ∧
   (∀ skip mode ts es ea rest, readEnvBody f skip false mode ts = .ok ((es, ea), rest) →
       SHyp skip0 ts → SkipSub skip skip0 → mode ≠ .special → repL mode es = true →
-      (mode = .math → peekFreeL es = true) →
       ∃ b, toksS b ++ rest = ts ∧ trees b = es ∧ WFs skip mode .env (win rest) b = true ∧
         (∀ eargs, ea = some eargs → ∃ esc n r g rest', rest = esc :: n :: r ∧ esc.cat = .Escape ∧
           n.text = sEnd ∧ readCommand g 1 0 false mode (n :: r) = .ok ((n, eargs), rest'))) ∧
